@@ -14,7 +14,7 @@ P = {
                  "C11_identical_requests_hit",
                  "C11_F2_refuted", "C11_F3_refuted", "C11_F4_history_refuted", "C11_F6_refuted", "C11_F7_refuted",
                  "C11_cc_cache_transparent", "C11_cc_F4_refuted", "C11_jf_cache_transparent", "C11_F5_refuted",
-                 "C11_hc_cache_transparent", "C11_F8_refuted", "C11_F9_refuted", "C11_jk_cache_transparent"],
+                 "C11_hc_cache_transparent", "C11_hc_cache_transparent_repaired", "C11_F8_refuted", "C11_F9_refuted", "C11_jk_cache_transparent"],
     "streams": [{
         "name": "histories", "pkg": "./internal/rules/mechanisms", "test": "TestVerifC11",
         "overlay": OVERLAY, "eval_module": "Run.Eval_C11", "check_term": "check fx_all",
